@@ -505,7 +505,11 @@ class FuncVerifier(object):
         return [(st, ('raise', name, n))]
 
     def st_Assert(self, n, st):
-        k = self.assert_ord[id(n)]
+        k = self.assert_ord.get(id(n))
+        if k is None:                      # an assert inside an inlined helper
+            k2 = self.auto_ord.get('assert', 0)
+            self.auto_ord['assert'] = k2 + 1
+            self.assert_ord[id(n)] = k = 1000 + k2
         site = 'assert%d' % k
         self.apply_hints(st, self.c.hints.get(site, []), site)
         cond = self.truth(self.pev(n.test, st), st, n)
@@ -523,18 +527,33 @@ class FuncVerifier(object):
         if not z3.is_false(cs):
             s1 = st.copy() if not z3.is_true(cs) else st
             s1.pc.append(cond)
-            for (s_, ctl) in self.exec_block(n.body, s1):
+            for (s_, ctl) in self.branch(n.body, s1, n):
                 if ctl is None and k is not None and ('if%d.then.end' % k) in self.c.hints:
                     self.apply_hints(s_, self.c.hints['if%d.then.end' % k], 'if%d.then.end' % k)
                 outs.append((s_, ctl))
         if not z3.is_true(cs):
             s2 = st
             s2.pc.append(z3.Not(cond))
-            for (s_, ctl) in self.exec_block(n.orelse, s2):
+            for (s_, ctl) in self.branch(n.orelse, s2, n):
                 if ctl is None and k is not None and ('if%d.else.end' % k) in self.c.hints:
                     self.apply_hints(s_, self.c.hints['if%d.else.end' % k], 'if%d.else.end' % k)
                 outs.append((s_, ctl))
         return outs
+
+    def branch(self, stmts, st, node):
+        """execute one branch of an if; a branch that leaves the fragment is tolerated only if it is provably dead"""
+        n_vcs = len(self.vcs)
+        try:
+            return self.exec_block(stmts, st)
+        except OutOfFragment:
+            s = z3.Solver()
+            s.set('timeout', 3000)
+            for h in st.pc:
+                s.add(h)
+            if s.check() == z3.unsat:
+                del self.vcs[n_vcs:]       # obligations of an unreachable branch
+                return []
+            raise
 
     def truth(self, v, st, node):
         if isinstance(v, ArrCmp):
@@ -913,6 +932,16 @@ class FuncVerifier(object):
         v = self.pev(n.operand, st)
         if isinstance(n.op, ast.Not):
             return z3.Not(self.truth(v, st, n))
+        if isinstance(n.op, ast.USub) and isinstance(v, Ref) and isinstance(st.heap.get(v.loc), Obj):
+            o = st.heap[v.loc]
+            m = self.find_method(o.cls, '__neg__')
+            if m is None:
+                raise OutOfFragment('%s has no __neg__' % o.cls, n)
+            mfile, mcls, mdef = m
+            callee = self.lib.contracts.get('%s::%s.__neg__' % (mfile, mcls))
+            if callee is not None:
+                return self.call_contract('%s.__neg__' % mcls, [v], n, st, mfile, callee=callee)
+            return self.inline_call(mfile, mcls, mdef, [v], {}, st, n)
         if isinstance(n.op, ast.USub):
             if isinstance(v, PyConst):
                 return PyConst(-v.value)
@@ -1254,9 +1283,7 @@ class FuncVerifier(object):
         """(defining file, defining class name, FunctionDef) along the inheritance chain of class `cname`"""
         if self.modules is None:
             return None
-        chain = self.modules.mro(self.cur_file(), cname)
-        if not chain:
-            chain = self.modules.mro(self.filekey, cname)
+        chain = self.class_chain(cname)
         if skip_first:
             chain = chain[1:]
         for (f, cdef) in chain:
@@ -1265,8 +1292,20 @@ class FuncVerifier(object):
                     return (f, cdef.name, b)
         return None
 
-    def is_subclass(self, cname, target):
+    def class_chain(self, cname):
+        """inheritance chain of a class by name: visible from the current file, the verified file, or any file of the package"""
+        import os
         chain = self.modules.mro(self.cur_file(), cname) or self.modules.mro(self.filekey, cname)
+        if not chain:
+            pkg = os.path.dirname(self.filekey)
+            for f in ('paulialg.py', 'stabilizer.py', 'circuit.py', 'utils.py', 'device.py'):
+                chain = self.modules.mro(os.path.join(pkg, f), cname)
+                if chain:
+                    break
+        return chain
+
+    def is_subclass(self, cname, target):
+        chain = self.class_chain(cname)
         return any(c.name == target for _, c in chain)
 
     def instantiate(self, cname, cfile, args, kwargs, st, node):
